@@ -373,17 +373,90 @@ def _viol(out, check, symptom, site, si, sj, feats, desc, detail):
                   replay=dict(kind="c05", old=pack(si["defs"]), new=pack(sj["defs"])))
 
 
+def run_go_skip(unit):
+    """Go runtime (no toolchain): the skip statements of Array.Process and MessageProcessor.Process are
+    extracted by gofront and evaluated over the relevant domain against the reference skip rule."""
+    from .. import gofront
+    out = UnitOut()
+    ast = gofront.parse(open(bind.GOLIB).read())
+    m = gofront.Machine(ast)
+    V = gofront.V
+
+    def skip_block(tname):
+        meth = m.methods.get((tname, "Process"))
+        if meth is None:
+            raise bind.InfraError("lib/go: no method %s.Process" % tname)
+        blocks = [s for s in meth[5] if s[0] == "if" and "extensible" in repr(s[2]) and "isEncode" in repr(s[2])]
+        if not blocks:
+            raise bind.InfraError("lib/go: no skip block in %s.Process" % tname)
+        return blocks[-1]
+
+    try:
+        arr = skip_block("Array")
+        for i in range(0, 40, 3):
+            for cap in range(1, 9):
+                for ebits in (1, 2, 3, 7, 8, 9, 16, 17, 33, 64, 81):
+                    for extra in range(0, 9):
+                        ahead = cap + extra
+                        env = dict(i=V("int", i), ahead=V("uint16", ahead), t=dict(capacity=V("int", cap), extensible=V("bool", True)),
+                                   ctx=dict(i=V("int", i + 16 + cap * ebits), isEncode=V("bool", False)))
+                        m.exec(arr, env)
+                        got = env["ctx"]["i"].v
+                        want = i + 16 + ahead * ebits
+                        out.count("evaluations")
+                        out.count("traces")
+                        out.count("transitions")
+                        out.count("go_skip_evaluations")
+                        if extra:
+                            out.count("nontrivial")
+                        if got != want:
+                            out.violation(check="go-skip", symptom="wrong_position", site="lib/go/bitproto.go:Array.Process", features=["event:grow"],
+                                          desc="Go extensible array skip: start=%d receiver cap=%d element bits=%d announced cap=%d -> cursor %d, expected %d" % (
+                                              i, cap, ebits, ahead, got, want), replay=dict(kind="c05-go"))
+                            raise StopIteration
+    except StopIteration:
+        pass
+    try:
+        msg = skip_block("MessageProcessor")
+        for i in range(0, 40, 3):
+            for own in (16, 17, 24, 33, 100):
+                for extra in range(0, 40, 3):
+                    env = dict(i=V("int", i), ahead=V("uint16", own + extra), t=dict(extensible=V("bool", True)),
+                               ctx=dict(i=V("int", i + own), isEncode=V("bool", False)))
+                    m.exec(msg, env)
+                    got = env["ctx"]["i"].v
+                    out.count("evaluations")
+                    out.count("traces")
+                    out.count("transitions")
+                    out.count("go_skip_evaluations")
+                    if got != i + own + extra:
+                        out.violation(check="go-skip", symptom="wrong_position", site="lib/go/bitproto.go:MessageProcessor.Process", features=["event:append"],
+                                      desc="Go extensible message skip: start=%d own bits=%d announced=%d -> cursor %d" % (i, own, own + extra, got), replay=dict(kind="c05-go"))
+                        raise StopIteration
+    except StopIteration:
+        pass
+    except gofront.GoEvalError as e:
+        raise bind.InfraError("gofront cannot evaluate the Go skip statements: %s" % e)
+    out.count("states", 2)
+    out.sample(dict(kind="go skip statements", evaluated=out.counters["go_skip_evaluations"]))
+    return out.result()
+
+
+def dispatch(unit):
+    return run_go_skip(unit) if unit[0] == "GO" else run_unit(unit)
+
+
 def units(tier):
-    return [("R", tier, k) for k in range(len(roots(tier)))]
+    return [("R", tier, k) for k in range(len(roots(tier)))] + [("GO", tier)]
 
 
-GO_SKIP_NOTE = "Go runtime: the three skip statements are inspected by bpmc.checks.gochecks (C05 go part) when gofront is available"
+GO_SKIP_NOTE = "Go runtime: the skip statements of Array.Process / MessageProcessor.Process are extracted by bpmc/gofront and evaluated over (start, capacity, element bits, announced capacity / size) against the reference skip rule (coverage.go_skip_evaluations)"
 
 
 def main(pid, tier):
     t0 = time.time()
     acc = Acc()
-    acc.merge(run_units(units(tier), run_unit, maxtasks=4))
+    acc.merge(run_units(units(tier), dispatch, maxtasks=4))
     c = acc.counters
     g = []
     for need in ("skip_after_message", "skip_after_array", "event:append", "event:grow"):
@@ -392,6 +465,7 @@ def main(pid, tier):
     cov = dict(
         states=c["states"], transitions=c["bfs_transitions"] + c["transitions"], traces_validated_against_impl=c["traces"],
         evaluations=c["evaluations"], distinct_nontrivial=c["nontrivial"], roots=len(roots(tier)), bfs_edges=c["bfs_transitions"],
+        go_skip_evaluations=c["go_skip_evaluations"],
         rule="BFS over evolution events (append_field on every extensible message node, grow on every extensible array node) from %d roots to "
              "depth %d with canonical de-duplication; for every ancestor/descendant pair on a BFS path and every BASIS value of the descendant "
              "(walking one/zero over the whole descendant bit string) the ancestor's implementation decoder (Python and C, guard pages) must return "
@@ -408,6 +482,10 @@ def main(pid, tier):
 def replay(payload):
     bind.bind()
     r = payload["replay"]
+    if r.get("kind") == "c05-go":
+        res = run_go_skip(("GO", "quick"))
+        print("REPRODUCED: %s" % res["violations"][0]["desc"] if res.get("violations") else "NOT REPRODUCED")
+        return 1 if res.get("violations") else 0
     old, new = unpack(r["old"]), unpack(r["new"])
     out = UnitOut()
     o_ir, o_pkt = link(old, "V0")
